@@ -150,17 +150,39 @@ Section Leaves.
     cbn [num_native_ok]. destruct (float_class x); try discriminate; reflexivity.
   Qed.
 
-  Lemma leaf_dec_ok nillable k j r :
+  Lemma utf8_dec_ascii t : all_ascii t = true -> utf8_dec t = Some t.
+  Proof. intros H. apply utf8_roundtrip, utf8_enc_ascii, H. Qed.
+
+  Lemma leaf_dec_ok nillable k j j' r :
     (match k with KText => true | _ => false end)
     && negb (match j with JStr _ | JBytes _ => true | _ => false end) = false ->
-    (match j with JStr s => negb (validate_string k s) | _ => false end) = false ->
-    leaf_conv c k j = Ok r -> validate_native nillable k r = Ok true ->
+    text_of_bytes k j = Ok j' ->
+    (match j' with JStr s => negb (validate_string k s) | _ => false end) = false ->
+    leaf_conv c k j' = Ok r -> validate_native nillable k r = Ok true ->
     leaf_dec c nillable k j = Ok r.
   Proof.
-    intros C1 C2 Hc Hv. unfold leaf_dec.
-    rewrite <- andb_assoc, C1, andb_false_r, C2, andb_false_r, Hc.
-    cbn [bind]. rewrite Hv. destruct (c_soft c); reflexivity.
+    intros C1 Ht C2 Hc Hv. unfold leaf_dec.
+    rewrite <- andb_assoc, C1, andb_false_r, Ht. cbn [bind].
+    rewrite C2, andb_false_r, Hc. cbn [bind]. rewrite Hv. destruct (c_soft c); reflexivity.
   Qed.
+
+  (** text in either MessagePack form is the same text once the byte string is decoded *)
+  Lemma tob_stext st k t :
+    (match k with KBytes => false | _ => true end) = true ->
+    utf8_dec (utf8_bytes t) = Some t ->
+    text_of_bytes k (stext c st t) = Ok (JStr t).
+  Proof.
+    intros Hk Hd. unfold stext. destruct (msgpack c && st_text_bin st).
+    - destruct k; try discriminate; cbn [text_of_bytes]; rewrite Hd; reflexivity.
+    - destruct k; try discriminate; reflexivity.
+  Qed.
+
+  Lemma stext_is_text st t :
+    (match stext c st t with JStr _ | JBytes _ => true | _ => false end) = true.
+  Proof. unfold stext. destruct (msgpack c && st_text_bin st); reflexivity. Qed.
+
+  Lemma ascii_bytes_dec t : all_ascii t = true -> utf8_dec (utf8_bytes t) = Some t.
+  Proof. intros H. rewrite (utf8_bytes_ascii t H). apply utf8_dec_ascii, H. Qed.
 
   Lemma validate_leaf nillable k l :
     (match k with KInt _ | KDouble => false | _ => true end) = true ->
@@ -173,32 +195,38 @@ Section Leaves.
   Lemma validate_int nillable msl z : validate_native nillable (KInt msl) (DLeaf (LInt z)) = Ok true.
   Proof. unfold validate_native. cbn [is_none]. rewrite andb_false_r. reflexivity. Qed.
 
-  (** the implementation's leaf reader inverts every conventional form whose text is str *)
+  (** the implementation's leaf reader inverts every conventional form, whichever way a
+      MessagePack peer writes text (str or bin) and the doubles 0.0 / 1.0 *)
   Theorem leaf_dec_spec st nillable k l :
-    st_text_bin st = false -> leaf_ok c k l = true ->
+    leaf_ok c k l = true ->
     leaf_dec c nillable k (sleaf c st k l) = Ok (DLeaf (lnorm l)).
   Proof.
-    intros Hst. unfold leaf_ok, sleaf, stext, msgpack. rewrite Hst, andb_false_r.
+    unfold leaf_ok, sleaf, msgpack.
     destruct k as [msl| | | |msl| ], l as [z|t|b|bits|d|b]; try discriminate; intros H; cbn [lnorm].
     - (* Integer *)
       destruct (is_msgpack c) eqn:Hm; cbn [andb] in *.
       + destruct (in64 z) eqn:Hi; cbn [negb] in *.
-        * apply leaf_dec_ok; [reflexivity|reflexivity| |apply validate_int].
+        * eapply leaf_dec_ok; [reflexivity|reflexivity|reflexivity| |apply validate_int].
           unfold leaf_conv. rewrite Hm. reflexivity.
-        * apply leaf_dec_ok; [reflexivity| | |apply validate_int].
+        * eapply leaf_dec_ok;
+            [reflexivity
+            |apply tob_stext; [reflexivity|apply ascii_bytes_dec, all_ascii_str_int]
+            | | |apply validate_int].
           -- cbn [validate_string]. rewrite H. reflexivity.
           -- unfold leaf_conv. rewrite Hm. unfold integer_from_text. rewrite H. cbn [negb].
              rewrite int_of_text_str_int. reflexivity.
-      + apply leaf_dec_ok; [reflexivity|reflexivity| |apply validate_int].
+      + eapply leaf_dec_ok; [reflexivity|reflexivity|reflexivity| |apply validate_int].
         unfold leaf_conv. rewrite Hm. unfold ret_number.
         destruct (in_true_false (JInt z)) as [z'|] eqn:E; [|reflexivity].
         cbn [in_true_false] in E. destruct ((z =? 0) || (z =? 1)); [|discriminate].
         injection E as <-. reflexivity.
     - (* Unicode *)
-      apply leaf_dec_ok; [reflexivity|reflexivity|reflexivity|apply validate_leaf; reflexivity].
+      eapply leaf_dec_ok;
+        [rewrite stext_is_text; reflexivity
+        |apply tob_stext; [reflexivity|apply utf8_bytes_dec, H]
+        |reflexivity|reflexivity|apply validate_leaf; reflexivity].
     - (* Boolean *)
-      apply leaf_dec_ok; [reflexivity|reflexivity| |apply validate_leaf; reflexivity].
-      destruct b; reflexivity.
+      eapply leaf_dec_ok; [reflexivity|reflexivity|reflexivity|reflexivity|apply validate_leaf; reflexivity].
     - (* Double *)
       apply andb_true_iff in H as [_ Hf].
       assert (Hv : validate_native nillable KDouble (DLeaf (lnorm (LDouble bits))) = Ok true).
@@ -206,26 +234,29 @@ Section Leaves.
       cbn [lnorm] in Hv.
       destruct (is_msgpack c && st_dbl_int st).
       + destruct (in_true_false (JFlt bits)) as [z|] eqn:E.
-        * apply leaf_dec_ok; [reflexivity|reflexivity| |exact Hv].
+        * eapply leaf_dec_ok; [reflexivity|reflexivity|reflexivity| |exact Hv].
           unfold leaf_conv, ret_number. rewrite (in_tf_int z (in_tf_range _ _ E)). reflexivity.
-        * apply leaf_dec_ok; [reflexivity|reflexivity| |exact Hv].
+        * eapply leaf_dec_ok; [reflexivity|reflexivity|reflexivity| |exact Hv].
           unfold leaf_conv, ret_number. rewrite E. reflexivity.
       + destruct (in_true_false (JFlt bits)) as [z|] eqn:E.
-        * apply leaf_dec_ok; [reflexivity|reflexivity| |exact Hv].
+        * eapply leaf_dec_ok; [reflexivity|reflexivity|reflexivity| |exact Hv].
           unfold leaf_conv, ret_number. rewrite E. reflexivity.
-        * apply leaf_dec_ok; [reflexivity|reflexivity| |exact Hv].
+        * eapply leaf_dec_ok; [reflexivity|reflexivity|reflexivity| |exact Hv].
           unfold leaf_conv, ret_number. rewrite E. reflexivity.
     - (* Decimal *)
       apply andb_true_iff in H as [Hc Hl].
-      apply leaf_dec_ok; [reflexivity| | |apply validate_leaf; reflexivity].
+      eapply leaf_dec_ok;
+        [reflexivity
+        |apply tob_stext; [reflexivity|apply ascii_bytes_dec, all_ascii_dec_str; lia]
+        | | |apply validate_leaf; reflexivity].
       + cbn [validate_string]. rewrite Hl. reflexivity.
       + unfold leaf_conv, decimal_from_text. rewrite Hl. cbn [negb].
         rewrite (dec_roundtrip d ltac:(lia)). reflexivity.
     - (* ByteArray *)
       destruct (is_msgpack c) eqn:Hm.
-      + apply leaf_dec_ok; [reflexivity|reflexivity| |apply validate_leaf; reflexivity].
+      + eapply leaf_dec_ok; [reflexivity|reflexivity|reflexivity| |apply validate_leaf; reflexivity].
         unfold leaf_conv. rewrite Hm. reflexivity.
-      + apply leaf_dec_ok; [reflexivity|reflexivity| |apply validate_leaf; reflexivity].
+      + eapply leaf_dec_ok; [reflexivity|reflexivity|reflexivity| |apply validate_leaf; reflexivity].
         unfold leaf_conv. rewrite Hm.
         rewrite (all_ascii_b64 b (forallb_bytes b H)).
         rewrite (b64_roundtrip false b (forallb_bytes b H)). reflexivity.
@@ -237,7 +268,9 @@ Section Leaves.
     intros H. unfold leaf_dec. cbn [jv_is_null andb].
     assert (E : c_soft c && negb nillable = false) by (destruct H as [->| ->]; [apply andb_false_r|reflexivity]).
     replace (c_soft c && negb (true && nillable)) with false by (cbn [andb]; symmetry; exact E).
-    cbn [andb]. rewrite andb_false_r.
+    cbn [andb].
+    assert (Ht : text_of_bytes k JNull = Ok JNull) by (destruct k; reflexivity).
+    rewrite Ht. cbn [bind]. rewrite andb_false_r.
     assert (Hc : leaf_conv c k JNull = Ok DNone) by (destruct k; reflexivity).
     rewrite Hc. cbn [bind]. destruct (c_soft c) eqn:Hs; [|reflexivity].
     unfold validate_native. cbn [is_none]. rewrite andb_true_r.
